@@ -456,6 +456,42 @@ theorem fixed_params_returned_partial (hl : OptLaw ER) (im : Img) (stage : Nat) 
 
 end real
 
+/-! ### 5b. the 3×3 "has data" box: a source on a finite pixel is never left unfitted for lack of data -/
+
+/-- **data_box_clipped_to_own_axis**: the row range of the box is clipped to the cut-out's number of
+    rows and the column range to its number of columns (both from 0) -/
+theorem data_box_clipped_to_own_axis (rows cols : Nat) :
+    clipXLo rows cols = 0 ∧ clipXHi rows cols = rows ∧ clipYLo rows cols = 0 ∧ clipYHi rows cols = cols := by
+  simp only [clipXLo, clipXHi, clipYLo, clipYHi]
+  first | trivial | omega | grind
+
+theorem data_box_edges (cx cy : ℝ) :
+    boxLoX cx cy = cx - 1 ∧ boxHiX cx cy = cx + 2 ∧ boxLoY cx cy = cy - 1 ∧ boxHiY cx cy = cy + 2 := by
+  simp [boxLoX, boxHiX, boxLoY, boxHiY]
+
+/-- **own_pixel_in_data_box**: for every cut-out shape (rows × cols, square or not) and every local
+    position `(cx, cy)` whose rounded pixel lies inside the cut-out, that pixel lies inside the box
+    `idata[xmn:xmx, ymn:ymx]` the code inspects.  So a component whose own pixel holds finite data (an
+    accepted source: the image is finite there, and the FWHM mask keeps the centre) always has data
+    and is never flagged NOTFIT — in a wide group as in a tall one -/
+theorem own_pixel_in_data_box (rnd : ℝ → ℤ) (hr : RoundLaw rnd) (rows cols : Nat) (cx cy : ℝ)
+    (hx0 : 0 ≤ rnd cx) (hx1 : rnd cx < (rows : ℤ)) (hy0 : 0 ≤ rnd cy) (hy1 : rnd cy < (cols : ℤ)) :
+    (dataBoxRows rnd rows cols cx cy).1 ≤ rnd cx ∧ rnd cx < (dataBoxRows rnd rows cols cx cy).2 ∧
+    (dataBoxCols rnd rows cols cx cy).1 ≤ rnd cy ∧ rnd cy < (dataBoxCols rnd rows cols cx cy).2 := by
+  obtain ⟨c1, c2, c3, c4⟩ := data_box_clipped_to_own_axis rows cols
+  obtain ⟨e1, e2, e3, e4⟩ := data_box_edges cx cy
+  have hx := own_pixel_in_axis_box rnd hr rows cx hx0 hx1
+  have hy := own_pixel_in_axis_box rnd hr cols cy hy0 hy1
+  simp only [dataBoxRows, dataBoxCols, c1, c2, c3, c4, e1, e2, e3, e4]
+  exact ⟨hx.1, hx.2, hy.1, hy.2⟩
+
+/-- negation witness for a column box clipped to the *row* extent (cut-out 10 rows × 21 columns,
+    component at column 15.4): with `clip(·, 0, 10)` both column edges are 10, so for any rounding the
+    box `[rnd 10, rnd 10)` is empty and the component would be left unfitted -/
+theorem misclipped_column_box_is_empty : clipR (15.4 - 1) 0 10 = clipR (15.4 + 2) 0 10 := by
+  unfold clipR
+  norm_num
+
 /-! ### 6. non-vacuity and the negation witnesses for the pinned float bounds -/
 
 /-- a concrete island: sources with odd (7) and even (6) widths, one off the image, one on a blank
